@@ -121,6 +121,33 @@ def norm(segs, solver=True):
                 out[-1] = Seg(p.arr, p.off, simp(p.n + s.n), p.conc)
                 continue
         out.append(s)
+    if solver:
+        # re-concretise after merging: sums of symbolic lengths are often unique again
+        for i, s in enumerate(out):
+            if not isinstance(s.n, int) or not isinstance(s.off, int):
+                n, off = concretize(s.n), concretize(s.off)
+                if n is not s.n or off is not s.off:
+                    out[i] = Seg(s.arr, off, n, s.conc)
+    return out
+
+
+def rebase(segs):
+    """fold [concrete bytes][window over a concrete base] pairs into one window (used by find):
+    re-attach to the base when the bytes are what the base holds just before the window,
+    otherwise rebase onto a new concrete string with the same content"""
+    out = []
+    for s in segs:
+        if out:
+            p = out[-1]
+            pm = p.materialized()
+            if pm is not None and s.conc is not None and isinstance(s.off, int):
+                k = _b.len(pm)
+                if s.off >= k and s.conc[s.off - k:s.off] == pm:
+                    out[-1] = Seg(None, s.off - k, simp(s.n + k), s.conc)
+                else:
+                    out[-1] = Seg(None, 0, simp(s.n + k), pm + s.conc[s.off:])
+                continue
+        out.append(s)
     return out
 
 
@@ -427,6 +454,8 @@ class SymBytes:
         pat = _b.bytes(pat)
         if not segs:
             return 0 if not pat else -1
+        if _b.len(segs) > 1:
+            segs = rebase(segs)
         if _b.len(segs) != 1 or segs[0].conc is None:
             c = self.concrete_or_none()
             if c is not None:
